@@ -78,7 +78,8 @@ BAD_PARAMS = [
 
 
 def plan(tier):
-    return {"cases": 6000, "wall_s": 140} if tier == "quick" else {"cases": 250000, "wall_s": 1700}
+    n = len(eof_layout(tier))
+    return {"cases": n + 6000, "wall_s": 140} if tier == "quick" else {"cases": n + 250000, "wall_s": 1700}
 
 
 class IdSource:
@@ -121,7 +122,41 @@ def bad_position(rng):
     ])
 
 
+def eof_session():
+    src = "module em\n  integer :: ev\ncontains\n  subroutine es()\n    ev = 1\n  end subroutine\nend module em\n"
+    p = f"{ROOT}/em.f90"
+    ops = [gen.initialize(1), gen.initialized(), gen.did_open(p, src),
+           gen.positional(2, "textDocument/hover", p, 4, 5),
+           gen.req("three", "no/such", {"x": "é"}),
+           gen.positional(4, "textDocument/definition", p, 4, 5),
+           gen.req(5, "workspace/symbol", {"query": "e"})]
+    return {p: src}, ops
+
+
+def eof_layout(tier):
+    from .. import frames
+
+    tree, ops = eof_session()
+    offs = []
+    for k, o in enumerate(ops):
+        n = len(frames.encode_frame(o["m"]))
+        step = 1 if tier == "thorough" else 3
+        for c in range(0, n, step):
+            offs.append((k, c))
+    return offs
+
+
 def gen_sched(g):
+    lay = eof_layout(g["tier"])
+    if g["i"] < len(lay):
+        # enumerated crash points of the client: the stream ends at byte c of message k
+        k, c = lay[g["i"]]
+        tree, ops = eof_session()
+        ops = ops[: k + 1]
+        ops[k] = dict(ops[k], cut=c)
+        return {"argv": ["--incremental_sync"], "tree": tree, "ops": ops, "faults": [], "buggify": [],
+                "pool": {}, "chunks": [1] if g["i"] % 5 == 0 else None, "pipeline": True, "sync_kind": 2,
+                "strict_edits": False, "swarm": ["eof-enum"]}
     rng = base.rng_for(g)
     ids = IdSource(rng)
     docs = pick_docs(rng)
